@@ -762,3 +762,80 @@ V("c10-error-wrong-class", "C10", "fire", "C10.R7",
 V("c10-raise-valueerror", "C10", "fire", "C10.R",
   (INFO, "            raise ZConfig.SchemaError(\n                \"child attribute name %s already used\" % info.attribute)",
          "            raise ValueError(\n                \"child attribute name %s already used\" % info.attribute)"))
+
+# ---------------------------------------------------------------- C11
+V("c11-keymap-not-copied", "C11", "fire", "C11.R",
+  (INFO, "        t._keymap.update(base._keymap)\n", ""))
+V("c11-derived-types-not-copied", "C11", "fire", "C11.R1",
+  (INFO, "    new._types.update(base._types)\n", ""))
+V("c11-defaults-on-shared-info", "C11", "fire", "C11.R2",
+  (INFO, "                info = copy.copy(info)\n                info.computedefault(t.keytype)",
+         "                info.computedefault(t.keytype)"))
+V("c11-old-keytype", "C11", "fire", "C11.R2",
+  (INFO, "                info.computedefault(t.keytype)", "                info.computedefault(base.keytype)"))
+V("c11-prefix-bottom", "C11", "fire", "C11.R4",
+  (SC, "        if name.startswith(\".\"):\n            return self._prefixes[-1] + name",
+       "        if name.startswith(\".\"):\n            return self._prefixes[0] + name"))
+V("c11-pop-missing", "C11", "fire", "C11.R4",
+  (SC, "    def end_sectiontype(self):\n        self.pop_prefix()\n        self._stack.pop()",
+       "    def end_sectiontype(self):\n        self._stack.pop()"))
+V("c11-component-twice", "C11", "fire", "C11.R5",
+  (SC, "            if not self._schema.hasComponent(src):\n                self._schema.addComponent(src)\n                self.loadComponent(src)",
+       "            if True:\n                self.loadComponent(src)"))
+V("c11-base-wins", "C11", "fire", "C11.R3",
+  (SC, "        if attrkey in attrs:\n            dtname = self.get_classname(attrs[attrkey])\n        else:\n            convert = getattr(base, attrkey, None)\n            if convert is not None:\n                return convert\n            dtname = default",
+       "        convert = getattr(base, attrkey, None)\n        if convert is not None:\n            return convert\n        if attrkey in attrs:\n            dtname = self.get_classname(attrs[attrkey])\n        else:\n            dtname = default"))
+V("c11-valuetype-inherited", "C11", "fire", "C11.R3",
+  (SC, "        valuetype = self.get_datatype(attrs, \"valuetype\", \"string\")",
+       "        valuetype = self.get_datatype(attrs, \"valuetype\", \"string\", base)"))
+V("c11-extends-own-schema", "C11", "fire", "C11.R6",
+  (SC, "        parser = SchemaParser(self._loader, src, self)", "        parser = SchemaParser(self._loader, src)"))
+V("c11-copy-idiom-ok", "C11", "silent", None,
+  (INFO, "    new._children[:] = base._children\n", "    new._children.extend(base._children)\n"))
+
+# ---------------------------------------------------------------- C12
+V("c12-extender-implements", "C12", "fire", "C12.R1",
+  (SC, "            sectinfo = self._schema.deriveSectionType(\n                base, name, keytype, valuetype, datatype)",
+       "            sectinfo = self._schema.deriveSectionType(\n                base, name, keytype, valuetype, datatype)\n"
+       "            for ifname, iface in self._schema.itertypes():\n                if iface.isabstract() and iface.hassubtype(base.name):\n                    iface.addsubtype(sectinfo)"))
+V("c12-abstract-direct-ok", "C12", "fire", "C12.R2",
+  (LD, "        if t.isabstract():\n            raise ZConfig.ConfigurationError(\n"
+       "                \"concrete sections cannot match abstract section types;\"\n"
+       "                \" found abstract type \" + repr(type_))\n", ""))
+V("c12-import-on-app-schema", "C12", "fire", "C12.R3",
+  (LD, "            schema = ZConfig.info.createDerivedSchema(self.schema)\n", "            schema = self.schema\n"))
+V("c12-import-not-idempotent", "C12", "fire", "C12.R",
+  (LD, "        if schema.hasComponent(url):\n            return\n", ""))
+V("c12-nonpackage-ok", "C12", "fire", "C12.R6",
+  (LD, "        if not hasattr(pkg, \"__path__\"):\n            raise ZConfig.SchemaResourceError(\n                \"import name does not refer to a package\",\n                filename=filename, package=package)\n        return f",
+       "        return f"))
+V("c12-schema-on-class", "C12", "fire", "C12.R",
+  (LD, "            self._private_schema = True\n            self.schema = schema",
+       "            self._private_schema = True\n            ConfigLoader.schema = schema\n            self.schema = schema"))
+V("c12-addtype-on-app-schema", "C12", "fire", "C12.R",
+  (LD, "        schema.addComponent(url)\n        with self.openResource(url) as resource:",
+       "        schema.addComponent(url)\n        self._app_schema = getattr(self, '_app_schema', None) or schema\n        with self.openResource(url) as resource:"))
+
+# ---------------------------------------------------------------- C13
+V("c13-default-aliased", "C13", "fire", "C13.R2",
+  (INFO, "        # list and dictionary cases:\n        return copy.copy(self._default)",
+         "        # list and dictionary cases:\n        return self._default"))
+V("c13-typenames-view", "C13", "fire", "C13.R2",
+  (INFO, "        return list(self._types.keys())", "        return self._types"))
+V("c13-derived-aliases-children", "C13", "fire", "C13.R7",
+  (INFO, "    new._children[:] = base._children\n", "    new._children = base._children\n"))
+V("c13-memo-before-success", "C13", "fire", "C13.R4",
+  ("src/ZConfig/datatypes.py", "            v = self._conversion(value)\n            self._memo[value] = v\n            return v",
+   "            self._memo[value] = None\n            v = self._conversion(value)\n            self._memo[value] = v\n            return v"))
+V("c13-global-counter", "C13", "fire", "C13.R6",
+  (MTF, "    def createValue(self):\n        return SectionValue(self._values, None, self)",
+        "    def createValue(self):\n        global _created\n        _created = 1\n        return SectionValue(self._values, None, self)"))
+V("c13-handlers-default-list", "C13", "fire", "C13.R",
+  (MTF, "    def __init__(self, info, type_, handlers):\n        self.info = info",
+        "    def __init__(self, info, type_, handlers=[]):\n        self.info = info"))
+V("c13-matcher-writes-info", "C13", "fire", "C13.R1",
+  (MTF, "        ci = self.type.getsectioninfo(type_, name)\n        attr = ci.attribute\n        v = self._values[attr]\n        if ci.ismulti():",
+        "        ci = self.type.getsectioninfo(type_, name)\n        ci.sectiontype.addsubtype(self.type)\n        attr = ci.attribute\n        v = self._values[attr]\n        if ci.ismulti():"))
+V("c13-cache-converted-default", "C13", "fire", "C13.R",
+  (MTF, "                default = ci.getdefault()\n                if default is None:",
+        "                default = ci.getdefault()\n                ci.adddefault('x', None)\n                if default is None:"))
